@@ -1338,3 +1338,251 @@ impl Observer for AuthorBindingObserver {
         self.check_store(w, who, &after_all, &ctx)
     }
 }
+
+// ---------------------------------------------------------------------------------------------
+// C03: only members of the sending epoch ever obtain a message's plaintext
+// ---------------------------------------------------------------------------------------------
+
+#[derive(Default)]
+pub struct ConfidentialityObserver {
+    pub judged: u64,
+    pub nontrivial: u64,
+    pub classes: BTreeSet<String>,
+    /// message count per evicted client at the time of eviction
+    evicted_counts: BTreeMap<usize, usize>,
+}
+
+fn root_of(w: &World, mut idx: usize) -> usize {
+    while let Some(r) = w.relay[idx].replay_of {
+        idx = r;
+    }
+    idx
+}
+
+impl ConfidentialityObserver {
+    fn content_index(w: &World) -> BTreeMap<String, usize> {
+        let mut m = BTreeMap::new();
+        for (i, e) in w.relay.iter().enumerate() {
+            if e.class == Class::App && e.replay_of.is_none() {
+                if let Some(r) = &e.rumor {
+                    m.insert(r.content.clone(), i);
+                }
+            }
+        }
+        m
+    }
+
+    pub fn check_store(&mut self, w: &World, who: usize, ctx: &str) -> Result<(), Failure> {
+        if w.clients[who].mdk.is_none() {
+            return Ok(());
+        }
+        let idx_of = Self::content_index(w);
+        let me = w.clients[who].pk_hex();
+        for f in w.full_all(who) {
+            for x in &f.msgs_created {
+                let Some(&src) = idx_of.get(&x.content) else { continue };
+                if w.relay[src].author == who {
+                    continue;
+                }
+                self.judged += 1;
+                if !w.relay[src].roster_at_send.contains(&me) {
+                    return Err(Failure::new(
+                        "plaintext-held-by-a-non-member-of-the-sending-epoch",
+                        format!(
+                            "{ctx}: c{who} holds message {:?} (state {}) sent by c{} in {} whose member list did not include it",
+                            x.content,
+                            x.state,
+                            w.relay[src].author,
+                            w.relay[src].base.as_ref().map(|b| b.short()).unwrap_or_default()
+                        ),
+                    ));
+                }
+            }
+        }
+        Ok(())
+    }
+}
+
+impl Observer for ConfidentialityObserver {
+    fn after_delivery(
+        &mut self,
+        w: &World,
+        who: usize,
+        idx: usize,
+        _before: Option<&Vec<Full>>,
+        outcome: &Outcome,
+        _redelivery: bool,
+    ) -> Result<(), Failure> {
+        let cl = &w.clients[who];
+        let me = cl.pk_hex();
+        let src = root_of(w, idx);
+        let ev = &w.relay[src];
+        let member_then = ev.roster_at_send.contains(&me);
+        if ev.class == Class::App && !member_then {
+            // an observer that was not a member of the sending epoch was offered the event
+            self.nontrivial += 1;
+            let role = if cl.reached.is_empty() {
+                "never-a-member"
+            } else if cl.evicted_at.is_some() {
+                "ex-member"
+            } else {
+                "not-yet-or-no-longer-member"
+            };
+            self.classes.insert(format!("{role}-offered-foreign-epoch-message->{}", outcome.tag()));
+            if let Outcome::App(_) = outcome {
+                return Err(Failure::new(
+                    "plaintext-returned-to-a-non-member-of-the-sending-epoch",
+                    format!(
+                        "c{who} ({role}) was handed message #{idx} ({}) sent by c{} in {} and process_message returned its content",
+                        ev.what,
+                        ev.author,
+                        ev.base.as_ref().map(|b| b.short()).unwrap_or_default()
+                    ),
+                ));
+            }
+        }
+        // after its own removal a client stores nothing any more, cannot send, and the group is inactive
+        if let Some(at) = cl.evicted_at {
+            let n = w.full(who).msgs_created.len();
+            let base = *self.evicted_counts.entry(who).or_insert(n);
+            if cl.cur.is_none() && w.step > at {
+                self.classes.insert("event-offered-after-own-removal".into());
+                if n > base {
+                    return Err(Failure::new(
+                        "evicted-client-stored-a-message",
+                        format!("c{who} processed its removal at step {at} and stored a message afterwards (event #{idx})"),
+                    ));
+                }
+            } else {
+                // re-joined or rolled back into the group: start over
+                self.evicted_counts.insert(who, n);
+            }
+        }
+        Ok(())
+    }
+}
+
+// ---------------------------------------------------------------------------------------------
+// C20: rollback snapshots stay bounded in number and age
+// ---------------------------------------------------------------------------------------------
+
+#[derive(Default)]
+pub struct SnapshotObserver {
+    /// per client: the (epoch, commit id) pairs whose snapshots must exist, oldest first
+    model: BTreeMap<usize, Vec<(u64, String)>>,
+    seen_applied: BTreeMap<usize, usize>,
+    seen_rollbacks: BTreeMap<usize, usize>,
+    pub checks: u64,
+    pub nontrivial: u64,
+    pub classes: BTreeSet<String>,
+    pub max_seen: usize,
+}
+
+pub fn list_snapshots(w: &World, who: usize) -> Result<Vec<(String, u64)>, String> {
+    use mdk_storage_traits::MdkStorageProvider;
+    use openmls_traits::OpenMlsProvider;
+    crate::on_mdk!(w.clients[who].mdk(), m => m.provider.storage().list_group_snapshots(&w.gid)).map_err(|e| e.to_string())
+}
+
+impl SnapshotObserver {
+    pub fn check_client(&mut self, w: &World, who: usize, what: &str) -> Result<(), Failure> {
+        let cl = &w.clients[who];
+        if cl.mdk.is_none() || cl.reached.is_empty() {
+            return Ok(());
+        }
+        let retention = cl.cfg.retention;
+        // update the model from what the harness observed since the last check
+        let model = self.model.entry(who).or_default();
+        let ra = self.seen_rollbacks.entry(who).or_insert(0);
+        let aa = self.seen_applied.entry(who).or_insert(0);
+        // interleave by order of occurrence: rollbacks of a delivery happen before its apply
+        while *ra < cl.rollbacks.len() || *aa < cl.applied.len() {
+            let next_rb = cl.rollbacks.get(*ra);
+            let next_ap = cl.applied.get(*aa);
+            let take_rb = match (next_rb, next_ap) {
+                (Some(_), None) => true,
+                (None, Some(_)) => false,
+                (Some(rb), Some((idx, seq, _))) => {
+                    // the rollback belongs to the delivery of its head event; an apply of the same
+                    // event comes after it, applies of earlier deliveries come before
+                    let head_idx = w.relay.iter().position(|e| e.ev.id == rb.head);
+                    if head_idx == Some(*idx) {
+                        true
+                    } else {
+                        // compare by step (coarse) then prefer the apply
+                        let _ = seq;
+                        false
+                    }
+                }
+                (None, None) => break,
+            };
+            if take_rb {
+                let rb = &cl.rollbacks[*ra];
+                let before = model.len();
+                model.retain(|(e, _)| *e < rb.target_epoch);
+                if model.len() + 1 < before {
+                    self.classes.insert("rollback-dropped-a-suffix".into());
+                    self.nontrivial += 1;
+                }
+                *ra += 1;
+            } else {
+                let (idx, seq, before) = &cl.applied[*aa];
+                if *seq != 0 {
+                    // applied through process_message: a snapshot of the state before is kept
+                    // (after a rollback inside the same call that state is the rollback target)
+                    let epoch = cl
+                        .rollbacks
+                        .iter()
+                        .rev()
+                        .find(|rb| w.relay.iter().position(|e| e.ev.id == rb.head) == Some(*idx))
+                        .map(|rb| rb.target_epoch)
+                        .or(before.as_ref().map(|b| b.epoch))
+                        .unwrap_or(0);
+                    model.push((epoch, w.relay[*idx].ev.id.to_hex()));
+                    while model.len() > retention {
+                        model.remove(0);
+                        self.classes.insert("pruned-by-retention".into());
+                        self.nontrivial += 1;
+                    }
+                }
+                *aa += 1;
+            }
+        }
+        let listed = list_snapshots(w, who).map_err(|e| Failure::new("snapshot-listing-failed", format!("c{who}: {e}")))?;
+        self.checks += 1;
+        self.max_seen = self.max_seen.max(listed.len());
+        if listed.len() > retention {
+            return Err(Failure::new(
+                "more-snapshots-than-retention",
+                format!("after {what} at c{who} ({:?}): {} snapshots kept, retention {retention}: {:?}", cl.kind, listed.len(), short_names(&listed)),
+            ));
+        }
+        let gid_hex = hex::encode(w.gid.as_slice());
+        let want: BTreeSet<String> = model.iter().map(|(e, id)| format!("snap_{gid_hex}_{e}_{id}")).collect();
+        let got: BTreeSet<String> = listed.iter().map(|(n, _)| n.clone()).collect();
+        if want != got {
+            let strip = |s: &BTreeSet<String>| s.iter().map(|n| n.rsplitn(3, '_').take(2).map(|p| p[..p.len().min(8)].to_string()).collect::<Vec<_>>().join("<-")).collect::<Vec<_>>();
+            return Err(Failure::new(
+                "kept-snapshots-are-not-those-of-the-most-recent-commits",
+                format!(
+                    "after {what} at c{who} ({:?}, retention {retention}, step {}): kept (commit<-epoch) {:?}, the most recent applied commits on its branch are {:?}",
+                    cl.kind,
+                    w.step,
+                    strip(&got),
+                    strip(&want)
+                ),
+            ));
+        }
+        Ok(())
+    }
+}
+
+fn short_names(l: &[(String, u64)]) -> Vec<String> {
+    l.iter().map(|(n, t)| format!("{}@{t}", n.rsplitn(3, '_').nth(1).unwrap_or("?"))).collect()
+}
+
+impl Observer for SnapshotObserver {
+    fn after_call(&mut self, w: &World, who: usize, what: &str) -> Result<(), Failure> {
+        self.check_client(w, who, what)
+    }
+}
